@@ -61,6 +61,10 @@ type c06Case struct {
 	// late-execute: in reshare HoldReshare (0-based) the execute packet towards one follower arrives HoldMs late
 	// (after the kick-off time), followed in order by everything that was sent to it meanwhile.
 	SilentOld bool `json:"silent_is_an_old_member,omitempty"`
+	// faulty-dealer: in epoch FaultyEpoch the own deal bundle of one participant has FaultyK undecryptable shares
+	FaultyK     int `json:"faulty_dealer_bad_shares,omitempty"`
+	FaultyRaw   int `json:"faulty_dealer_raw,omitempty"`
+	FaultyEpoch int `json:"faulty_dealer_epoch,omitempty"`
 	// direct-link-lost: bundles of LinkKind sent by one participant reach one other participant only through echoes
 	LinkKind         string `json:"lost_link_kind,omitempty"`
 	LinkRaw          int    `json:"lost_link_raw,omitempty"`
@@ -147,6 +151,23 @@ func c06MakeFamilyCase(idx int, fam string) c06Case {
 			}
 		}
 		c.Reshares = []c06Reshare{rs}
+	case "faulty-dealer":
+		// one participant's own deal bundle carries undecryptable shares for K < t holders: complaints, a justification
+		// bundle with K entries, and the same group for everybody at the end
+		c.N = 4 + (idx/12+off)%3
+		c.T = rng.Range(3, c.N-1)
+		if c.T < c06MinT(c.N) {
+			c.T = c06MinT(c.N)
+		}
+		c.Period = []int{1, 2, 3, 5}[rng.Intn(4)]
+		c.Catchup = rng.Range(0, c.Period)
+		c.FaultyK = rng.Range(1, 2)
+		if c.FaultyK > c.T-1 {
+			c.FaultyK = c.T - 1
+		}
+		c.FaultyRaw = rng.Intn(1 << 20)
+		c.FaultyEpoch = 1 + rng.Intn(2)
+		c.Reshares = []c06Reshare{{Kind: "same", NewT: c.T}}
 	case "direct-link-lost":
 		// one dealer's own bundles of one phase never arrive at one node directly: the re-broadcast by the others is
 		// what the protocol relies on ("echo broadcast ... so all nodes see the same bundles")
@@ -191,6 +212,9 @@ func c06MakeCase(idx int) c06Case {
 		return c06MakeFamilyCase(idx, "late-execute")
 	case 1:
 		return c06MakeFamilyCase(idx, "direct-link-lost")
+	}
+	if idx%12 == 10 {
+		return c06MakeFamilyCase(idx, "faulty-dealer")
 	}
 	cs := vfCaseSeed(vfSeed(), "C06", idx)
 	rng := vfNewRng(cs)
@@ -344,6 +368,17 @@ func (x *c06Ctx) info(extra map[string]any) map[string]any {
 	return m
 }
 
+// applyFaulty: for the faulty-dealer family, pick the dealer among those who deal in this epoch.
+func (x *c06Ctx) applyFaulty(dealers []*vfdNode) {
+	x.net.setFaulty(nil)
+	if x.c.Family != "faulty-dealer" || int(x.epoch) != x.c.FaultyEpoch || len(dealers) < 3 {
+		return
+	}
+	d := dealers[x.c.FaultyRaw%len(dealers)]
+	x.net.setFaulty(&vfdFaulty{Addr: d.addr, K: x.c.FaultyK})
+	x.run.Count("epochs_with_a_faulty_dealer", 1)
+}
+
 // applyLostLink: for the direct-link-lost family, pick dealer and destination among the participants of the epoch.
 func (x *c06Ctx) applyLostLink(participants []*vfdNode) {
 	x.net.setDropLink(nil)
@@ -437,6 +472,7 @@ func c06RunCase(run *vfRun, base string, c c06Case) {
 	listed := vfdShuffled(x.rng, members)
 	x.applySlow(c.Slow1, listed)
 	x.applyLostLink(listed)
+	x.applyFaulty(listed)
 	genesis := time.Now().Add(3 * time.Second).Truncate(time.Second)
 	if err := leader.cmdInitial(uint32(c.T), uint32(c.Period), uint32(c.Catchup), c.Scheme, time.Now().Add(time.Minute), genesis, vfdParts(listed)); err != nil {
 		// a one-node network has nobody to gossip to: the command stores the proposal and then reports
@@ -518,6 +554,7 @@ func c06RunCase(run *vfRun, base string, c c06Case) {
 		rleader := rcand[x.rng.Intn(len(rcand))]
 		x.applySlow(rs.Slow, participants)
 		x.applyLostLink(participants)
+		x.applyFaulty(remaining)
 		if c.Family == "late-execute" && ri == 0 {
 			followers := c06Without(participants, rleader)
 			if len(followers) > 0 {
